@@ -1129,3 +1129,34 @@ func ruleC13ParallelEvaluators(c *Ctx) {
 	scan(disp, false)
 	c.Check(len(why) == 0, "c13.parallel-evaluators", "comparison/AND/OR", c.P.Pos(roots[0].Pos()), fmt.Sprintf("%d functions reachable from the admitted evaluators write no query state", len(seen)), strings.Join(uniq(why), "; ")+": evaluated from one goroutine per key by the PARALLEL join, unsynchronised (fatal error: concurrent map writes, or a lost update)")
 }
+
+func init() { register("C13", ruleC13CatalogResolvesThunks); register("C10", ruleC13CatalogResolvesThunks) }
+
+// ruleC13CatalogResolvesThunks: what the parallel matchers compare is plain data, not a lazy CTE entry.
+func ruleC13CatalogResolvesThunks(c *Ctx) {
+	c.Doc("c13.catalog-resolves-thunks", "the catalog builder (ToCatalog) reads the key columns of a join side with the selector reader; on `dual` (whose row is the CTE registry) and on documents that carry CTE entries such a column can be a lazy CTE thunk. The builder recognises the thunk type on the value it read and evaluates it there, on the query's own goroutine: left in the key map, it is evaluated by ValueOf inside the goroutines of a PARALLEL join — once per goroutine, each writing the shared registry (fatal error: concurrent map writes, inside New)")
+	f := c.P.Func(modPath, "ToCatalog")
+	if f == nil {
+		c.Unknown("c13.catalog-resolves-thunks", "ToCatalog", "-", "anchor lost")
+		return
+	}
+	c.Fn("ToCatalog")
+	reads, resolves := false, false
+	deepInstrs(f, func(_ *ssa.Function, tb *TB, _ *ssa.BasicBlock, in ssa.Instruction) {
+		switch x := in.(type) {
+		case *ssa.Call:
+			if calleeName(x.Common()) == "ExecReader" {
+				reads = true
+			}
+		case *ssa.TypeAssert:
+			if isThunkType(x.AssertedType) && strings.Contains(tb.Of(x.X).String(), "ExecReader(") {
+				resolves = true
+			}
+		}
+	})
+	if !reads {
+		c.Unknown("c13.catalog-resolves-thunks", "ToCatalog", c.P.Pos(f.Pos()), "anchor lost: the catalog builder does not read its key columns with the selector reader")
+		return
+	}
+	c.Check(resolves, "c13.catalog-resolves-thunks", "ToCatalog", c.P.Pos(f.Pos()), "a key column that is a lazy CTE entry is evaluated while the catalog is built", "ToCatalog stores whatever the selector reader returns as a key value: a lazy CTE entry (`… u PARALLEL LEFT JOIN dual ON u.a > c1`) stays a thunk in the key map and is called by ValueOf from every goroutine of the parallel matcher, each call writing the shared CTE registry")
+}
